@@ -57,7 +57,7 @@ func pagingWorld(t *testing.T, res *vh.Result, tr *vh.Trace, cases []pcase) {
 	}
 	defer n.close()
 	o := &obs{tr: tr, res: res, r: vh.Rand(4100), w: "paging", rpcProofEvery: 7}
-	tr.Emit(map[string]any{"event": "init", "world": "paging"})
+	o.wi = openWorld(tr, "paging", nil)
 	srvByCap := map[int]*srv{}
 	for _, c := range []int{1, 2, 3, 100} {
 		s, err := n.serve(fmt.Sprintf("cap%d", c), c, c, true)
@@ -73,7 +73,7 @@ func pagingWorld(t *testing.T, res *vh.Result, tr *vh.Trace, cases []pcase) {
 		if err != nil {
 			t.Fatalf("reference node has no state root for %d: %v", h, err)
 		}
-		tr.Emit(map[string]any{"event": "ref", "h": h, "flat": flat(n.bc), "live": []string{}, "root": sr.Root.StringLE(),
+		tr.Emit(map[string]any{"event": "ref", "w": o.wi, "h": h, "flat": flat(n.bc), "live": []string{}, "root": sr.Root.StringLE(),
 			"bhash": n.bc.GetHeaderHash(h).StringLE()})
 	}
 	block := func(txs ...*transaction.Transaction) {
@@ -192,7 +192,7 @@ func pagingWorld(t *testing.T, res *vh.Result, tr *vh.Trace, cases []pcase) {
 func (o *obs) malformed(n *node, s *srv, root util.Uint256, hash util.Uint160) {
 	probe := func(class, method string, params ...any) {
 		_, e, err := s.raw(method, params...)
-		ev := map[string]any{"event": "malformed", "node": n.name, "cfg": n.keep, "srv": s.name, "via": "raw", "method": method, "class": class, "answered": err == nil}
+		ev := map[string]any{"event": "malformed", "w": o.wi, "node": n.name, "cfg": n.keep, "srv": s.name, "via": "raw", "method": method, "class": class, "answered": err == nil}
 		if e != nil {
 			ev["code"] = e.Code
 		}
